@@ -93,13 +93,15 @@ NoOut          == [cls |-> "",       kind |-> "",    arg |-> "",  v |-> 0]
 \*                                    read that must reach the session
 \*   envfail  def ev = 4; error 'boom'
 \*   envread  ev                      (kept environment only)
-C10Env(i) ==
-  { Cmd("envcall", i, "x", 0, e, "") : e \in {"fresh", "kept", "child"} }
-  \cup { Cmd("envfail", i, "", 0, e, "") : e \in {"kept", "child"} }
-  \cup { Cmd("envread", i, "ev", 0, "kept", "") }
-C10EnvTwo(i) ==
+\* (the kept environment adds a bit of state - does it hold ev - and is shared
+\* by the interpreters: it goes with the small two-interpreter alphabet and
+\* the wide one)
+C10EnvOne(i) ==
+  { Cmd("envcall", i, "x", 0, "fresh", ""), Cmd("envcall", i, "x", 0, "child", ""),
+    Cmd("envfail", i, "", 0, "child", "") }
+C10EnvKept(i) ==
   { Cmd("envcall", i, "x", 0, "kept", ""), Cmd("envfail", i, "", 0, "kept", ""),
-    Cmd("envcall", i, "x", 0, "child", "") }
+    Cmd("envread", i, "ev", 0, "kept", "") }
 
 \* alphabets (selected by the cfg through CmdsOf <- ...)
 C10Core(i) ==
@@ -110,16 +112,17 @@ C10Core(i) ==
     Cmd("bump", i, "good", 0, "", "") }
   \cup { Cmd("require", i, "", 0, m, "plain") :
            m \in {"good", "good2", "missing", "broken", "synbad", "cyca"} }
-  \cup C10Env(i)
+  \cup C10EnvOne(i)
 C10Wide(i) ==
   C10Core(i) \cup { Cmd("require", i, "", 0, "cycb", "plain"),
                     Cmd("require", i, "", 0, "good", "as"),
                     Cmd("require", i, "", 0, "good2", "unq"),
                     Cmd("require", i, "", 0, "good", "imp") }
+              \cup C10EnvKept(i)
 C10Two(i) ==
   { Cmd("def", i, "x", 1, "", ""),      Cmd("bump", i, "good", 0, "", "") }
   \cup { Cmd("require", i, "", 0, m, "plain") : m \in {"good", "broken", "missing"} }
-  \cup C10EnvTwo(i)
+  \cup C10EnvKept(i) \cup { Cmd("envcall", i, "x", 0, "child", "") }
 C11Cmds(i) ==
   { Cmd("require", i, "", 0, m, IForms[f]) : m \in ModIds, f \in DOMAIN IForms }
   \cup { Cmd("bump", i, n, 1, "", "") : n \in UNION {{m, Alias(m), NBump(m)} : m \in ModIds} }
